@@ -190,20 +190,30 @@ func nonTermination(real json.RawMessage) string {
 }
 
 var selfMergeRe = regexp.MustCompile(`<<\s*:\s*\[?\s*\*`)
+var multiPathRe = regexp.MustCompile(`path:\s*\[[^\]\n]*,`)
 
-// hangCause names the construct that makes a load loop, from the input itself (stable across streams and seeds).
+// hangCause names the construct that makes a load loop.  In the reference-cycle stream every input is a named
+// shape (the two recorded defects have their own names; any *other* cycle shape that stops returning is a new
+// key).  In the random streams the cause is read off the input, so the key is stable across seeds.
 func hangCause(a c01Args) string {
-	inc := false
+	if strings.HasPrefix(a.Shape, "cycle/") {
+		switch {
+		case strings.HasPrefix(a.Shape, "cycle/alias-self-merge"):
+			return "alias-self-merge"
+		case strings.HasPrefix(a.Shape, "cycle/include-override-position"):
+			return "include-override-position"
+		}
+		return a.Shape
+	}
 	for _, c := range a.Req.Files {
 		if selfMergeRe.MatchString(c) {
 			return "alias-self-merge"
 		}
-		if strings.Contains(c, "include") {
-			inc = true
-		}
 	}
-	if inc {
-		return "include-override-position"
+	for _, c := range a.Req.Files {
+		if strings.Contains(c, "include") && multiPathRe.MatchString(c) {
+			return "include-override-position"
+		}
 	}
 	return shapeClass(a.Shape)
 }
